@@ -12,7 +12,7 @@
 import ast
 import math
 
-from verifkit import affine, cache
+from verifkit import affine, cache, pat
 from verifkit.core import Outcome
 from verifkit.model import EXT, NUM, NONE, BOOL, UNK, AnalysisError
 from verifkit.own import ownership
@@ -369,6 +369,23 @@ def r10_2(ctx):
                     continue
                 dep.add(x)
                 work += list(defs.get(x, ()))
+            # keys must be discrete: 0.5 and Fraction(1, 2) are the same dict key, so a table keyed by numeric *values*
+            # hands the first caller's numeric type (float / exact) to every later caller with an equal value
+            numeric = []
+            for pn in sorted(keyvars & params):
+                arg = next((a for a in fn.node.args.posonlyargs + fn.node.args.args + fn.node.args.kwonlyargs if a.arg == pn), None)
+                ann = U(arg.annotation) if arg is not None and arg.annotation is not None else ""
+                asserted = any(isinstance(x, ast.Call) and isinstance(x.func, ast.Name) and x.func.id == "isinstance"
+                               and len(x.args) == 2 and pat.is_name(x.args[0], pn)
+                               and U(x.args[1]) in ("int", "str", "bool", "(int,)", "type")
+                               for st in fn.node.body if isinstance(st, ast.Assert) for x in ast.walk(st.test))
+                if ann in ("int", "str", "bool", "type") or asserted:
+                    continue
+                numeric.append(pn)
+            if numeric:
+                out.bad(fn.qname, f"memo key holds numeric values of parameter(s) {numeric}: equal values of different "
+                                  f"numeric types (0.5 == Fraction(1, 2)) share one entry, so the stored result keeps the "
+                                  f"type of whoever called first", where=fn.where(store))
             missing = sorted((dep & params) - keyvars)
             if missing:
                 out.bad(fn.qname, f"memo key incomplete: value depends on parameter(s) {missing} not in the key",
